@@ -16,6 +16,7 @@ RULE = ("operation sequences on a share inside a store and on a share without a 
         "length 3 (quick) / 4 (thorough) over a core alphabet and up to length 2 over the full alphabet; (2) seeded "
         "random sequences of 4..40 operations.  distinct = distinct operation list; non-trivial = at least two "
         "operations of which at least one changed a share, its stamp, its deck or the store time")
+RULE = __import__("vf.core", fromlist=["rule_add"]).rule_add(RULE, 'also pops whose default is the stored value itself')
 META = {"engine": "B history",
         "technique": "runtime monitoring: real Share/Data/Deck and an executable model stepped together, return "
                      "value / rejection / full state (fields in order, stamp, deck, all views) compared per step",
